@@ -766,7 +766,7 @@ func genC17vdr(r *rand.Rand, n int, emit func(string)) {
 		}
 		doc["aka"] = strsI(aka)
 		body := M{"method": pick(r, []string{"sidetree", "foo", "ion"}), "doc": doc,
-			"updateKey": pubCoords(opb.NewKey(r, pick(r, []opb.KeyType{opb.Ed25519, opb.P256, opb.Secp256k1}))),
+			"updateKey":   pubCoords(opb.NewKey(r, pick(r, []opb.KeyType{opb.Ed25519, opb.P256, opb.Secp256k1}))),
 			"recoveryKey": pubCoords(opb.NewKey(r, pick(r, []opb.KeyType{opb.Ed25519, opb.P256})))}
 		body["uri"] = UriTable(deepCopy(doc))
 		emit(proto.Line("vdr", body))
